@@ -319,6 +319,9 @@ func final(x *harness.X, res *rt.Result) {
 		// connections the server started to serve (it read the client's first envelope)
 		if sc.BytesRead > s.pl.Base[i] && !sc.IsClosed() {
 			x.Failf("server-conn-open", "server end of connection %d was never closed %s", i, hist)
+		} else if s.pl.WasAccepted(i) && !sc.IsClosed() {
+			// taken over by the server's accept loop and then dropped (e.g. left in its backlog)
+			x.Failf("accepted-conn-open", "connection %d was accepted by the server, never served and never closed %s", i, hist)
 		}
 	}
 	if s.stalled != nil && s.closeRet && s.stalled.PeerBytesRead() > 0 {
